@@ -512,25 +512,51 @@ func (P *Prog) testWriteBeforeRead(r *Result) (bool, string) {
 				details = append(details, fname(fn)+": Test.Func called without a *SchemaCtx argument")
 				return
 			}
-			// dominating store ctx.Test <- base (address of the same Test)
-			found := false
-			eachInstr(fn, func(b2 *ssa.BasicBlock, i2 int, in2 ssa.Instruction) {
-				st, ok := in2.(*ssa.Store)
-				if !ok {
-					return
+			// dominating store ctx.Test <- base (address of the same Test), in this function or - for a
+			// helper that only runs from its static call sites - before every one of those calls
+			var dominated func(fn *ssa.Function, b *ssa.BasicBlock, idx int, depth int) bool
+			dominated = func(fn *ssa.Function, b *ssa.BasicBlock, idx int, depth int) bool {
+				found := false
+				eachInstr(fn, func(b2 *ssa.BasicBlock, i2 int, in2 ssa.Instruction) {
+					st, ok := in2.(*ssa.Store)
+					if !ok {
+						return
+					}
+					sb, sf := fieldVar(st.Addr)
+					if sf == nil || !sameField(sf, R.FTest) || cv(sb) != cv(ctxv) {
+						return
+					}
+					if !sameAddr(st.Val, base) {
+						return
+					}
+					if b2 == b && i2 < idx || b2 != b && b2.Dominates(b) {
+						found = true
+					}
+				})
+				if found || depth >= 3 {
+					return found
 				}
-				sb, sf := fieldVar(st.Addr)
-				if sf == nil || !sameField(sf, R.FTest) || cv(sb) != ctxv {
-					return
+				sites, closed := P.closedCallSites(fn)
+				if !closed || len(sites) == 0 {
+					return false
 				}
-				if !sameAddr(st.Val, base) {
-					return
+				for _, site := range sites {
+					sb := site.Block()
+					si := -1
+					for k, x := range sb.Instrs {
+						if x == ssa.Instruction(site) {
+							si = k
+						}
+					}
+					ok := false
+					withCallSite(site, fn, func() { ok = dominated(sb.Parent(), sb, si, depth+1) })
+					if !ok {
+						return false
+					}
 				}
-				if b2 == b && i2 < idx || b2 != b && b2.Dominates(b) {
-					found = true
-				}
-			})
-			if !found {
+				return true
+			}
+			if !dominated(fn, b, idx, 0) {
 				okAll = false
 				details = append(details, fmt.Sprintf("%s (%s): call of Test.Func not dominated by ctx.Test = &<that test>", fname(fn), P.ipos(in)))
 			}
